@@ -215,6 +215,26 @@ def d2(ctx, F):
             r = flow.root(ent, rv["ops"][0])
             sans.append((rv["variant"], flow.const_of(r[1]) if r[0] == "const" else None))
     ctx.floor("C15.D2.server-name.sites", len(conn), 1)
+    # every connection attempt uses *this* call's TLS configuration: on every path to Endpoint::connect the endpoint has been given the
+    # `config` parameter (set_default_client_config / connect_with); an endpoint cached across calls would keep the first caller's
+    # trust anchors and identity for every later client in the process
+    cei = F.inlined(ce, only=("selium::connection",))
+    conn_i = [c for c in cei.calls() if strip_generics(c.callee) in ("quinn::endpoint::Endpoint::connect", "quinn::endpoint::Endpoint::connect_with")]
+    cfgv = flow.derived(cei, {l["id"] for l in cei.locals if l["id"] <= cei.nargs or l.get("upvar") is not None} |
+                        {pl["l"] for i, j, pl, rv, s in cei.assigns() if rv["k"] == "use" and rv["op"].get("k") in ("copy", "move") and rv["op"]["pl"]["l"] == 1 and rv["op"]["pl"]["p"]}, calls="adapters")
+    sets = [c for c in cei.calls() if strip_generics(c.callee) == "quinn::endpoint::Endpoint::set_default_client_config" and len(c.args) > 1 and
+            "ClientConfig" in (c.arg_tys[1] if len(c.arg_tys) > 1 else "") and op_local(c.args[1]) in cfgv]
+    for c in conn_i:
+        if strip_generics(c.callee).endswith("connect_with"):
+            okc = op_local(c.args[1]) in cfgv
+        else:
+            okc = bool(sets) and c.bb not in flow.reach_avoiding(cei, [0], [x.bb for x in sets])
+        ctx.check(okc, "C15.D2.config-per-connection", "connect:config-not-installed",
+                  "every path to Endpoint::connect installs this call's ClientConfig on the endpoint first (no endpoint reused with an earlier caller's configuration)", c.span)
+    stat = [strip_generics(c.callee) for c in cei.calls() if any(x in strip_generics(c.callee) for x in ("OnceLock", "OnceCell", "LazyLock", "LocalKey", "lazy_static"))]
+    if all(strip_generics(c.callee).endswith("connect_with") for c in conn_i) and conn_i:
+        stat = []          # a shared endpoint is fine when every connection passes its own configuration explicitly
+    ctx.check(not stat, "C15.D2.config-per-connection", "connect:cached-endpoint", "connect_to_endpoint keeps no process-wide endpoint (%s)" % (stat or "none"), ce.span)
     for c in conn:
         name = flow.const_of(c.args[2])
         if name is None:
@@ -293,19 +313,35 @@ def d4(ctx, F):
         ok = ok and len(der) == 1 and len([c for c in gi.calls() if c.name() == "serialize_der"]) == 1
     ctx.check(ok, "C15.D4.same-ca", "gen:different-cas", "client and server certificates are signed by the one generated CA, whose DER is what gets published", gen.span)
     out = F.body(P + "cert_gen::CertGen::output")
-    wf = F.body(P + "cert_gen::CertGen::write_to_filesystem")
-    ctx.touch(out, wf)
-    ws = out.calls_to(P + "cert_gen::CertGen::write_to_filesystem")
-    ctx.check(len(ws) == 2, "C15.D4.same-ca", "gen:output-dirs", "both output directories are written through write_to_filesystem", out.span)
+    ctx.touch(out)
+    # private helpers (write_to_filesystem / write_file, whatever they are called) are looked through: what matters is which bytes reach
+    # `write_all` for each output directory
+    oi = F.inlined(out, only=(P,))
     cg = F.adt(P + "cert_gen::CertGen")
     caidx = [f["name"] for f in cg["variants"][0]["fields"]].index("ca")
-    wfc = [c for c in wf.calls_to(P + "cert_gen::write_file")]
+    wr = [c for c in oi.calls() if strip_generics(c.callee) == "std::io::Write::write_all"]
     ca_written = 0
-    for c in wfc:
-        r = flow.root(wf, c.args[1], through_calls=flow.ADAPTERS)
-        if r[0] == "rv" and r[1]["k"] == "ref" and r[1]["pl"]["l"] == 1 and [e for e in r[1]["pl"]["p"] if isinstance(e, int)] == [caidx]:
+    for c in wr:
+        r = flow.root(oi, c.args[1], through_calls=flow.ADAPTERS | {"alloc::vec::Vec::as_slice", "core::ops::deref::Deref::deref"})
+        pl = None
+        if r[0] == "rv" and r[1]["k"] == "ref":
+            pl = r[1]["pl"]
+        elif r[0] == "rv" and r[1]["k"] == "use" and r[1]["op"].get("k") in ("copy", "move"):
+            pl = r[1]["op"]["pl"]
+        if pl is not None and (pl["l"] == 1 or flow.root_local(oi, pl["l"]) == 1) and [e for e in pl["p"] if isinstance(e, int)] == [caidx]:
             ca_written += 1
-    ctx.check(ca_written == 1 and len(wfc) == 3, "C15.D4.same-ca", "gen:ca-file", "write_to_filesystem writes self.ca (the shared CA) plus the key pair", wf.span)
+    # every output file is (re)created empty: File::create, or OpenOptions with truncate(true) — otherwise a re-run leaves the tail of a
+    # longer earlier file behind and the DER no longer parses
+    trunc_ok = True
+    opens = [c for c in oi.calls() if strip_generics(c.callee) in ("std::fs::OpenOptions::open", "std::fs::File::options")]
+    creates = [c for c in oi.calls() if strip_generics(c.callee) == "std::fs::File::create"]
+    if opens:
+        tr = [c for c in oi.calls() if strip_generics(c.callee) == "std::fs::OpenOptions::truncate" and flow.const_of(c.args[1]) is True]
+        trunc_ok = bool(tr) and all(any(oi.dominates(t.bb, o.bb) for t in tr) for o in opens if strip_generics(o.callee).endswith("::open"))
+    ctx.check(trunc_ok and (bool(creates) or bool(opens)), "C15.D4.files-truncated", "gen:file-not-truncated",
+              "the generator truncates each output file it writes (File::create or OpenOptions::truncate(true))", out.span)
+    ctx.check(len(wr) == 6 and ca_written == 2, "C15.D4.same-ca", "gen:ca-file",
+              "each of the two output directories receives self.ca (the one shared CA) plus its key pair (%d writes, %d of the CA)" % (len(wr), ca_written), out.span)
 
 
 def d5(ctx):
